@@ -42,7 +42,13 @@ class TargetURI:
         """Constructs a instance of TargetURI with the given arguments.
         The ``args`` dict is used for the query string.
         """
-        netloc = host if port is None else join_host_port(host, port)
+        if port is not None:
+            netloc = join_host_port(host, port)
+        elif ":" in host:
+            # An IPv6 literal needs brackets in the netloc, with or without port.
+            netloc = f"[{host}]"
+        else:
+            netloc = host
         return cls(urlunparse((scheme, netloc, "", "", urlencode(args), "")))
 
     @property
